@@ -24,7 +24,7 @@ func (pf *PreferenceFunctions) Spec_Len() int {
 }
 
 func (pf *PreferenceFunctions) Spec_Fetch(function string) *PreferenceFunction {
-	preferenceFunMap := utils.AsMap(pf)
+	preferenceFunMap := utils.Spec_AsMap(pf)
 	fun, ok := (*preferenceFunMap)[function]
 	if !ok {
 		var keys []string
@@ -38,7 +38,7 @@ func (pf *PreferenceFunctions) Spec_Fetch(function string) *PreferenceFunction {
 }
 
 func (pf *PreferenceFunctions) Spec_FetchParameters() *map[string]interface{} {
-	var functionsParameters = make(map[string]interface{}, pf.Len())
+	var functionsParameters = make(map[string]interface{}, pf.Spec_Len())
 	reflector := jsonschema.Reflector{ExpandedStruct: true}
 	for _, f := range pf.Functions {
 		functionsParameters[f.Identifier()] = reflector.Reflect(f.MethodParameters())
